@@ -81,12 +81,26 @@ pub fn issuer_fresh_classes(alpha: &[IssOp], alg: Alg) -> Vec<&'static str> {
         .collect()
 }
 
+/// Another tenant's issuer (EC key asked to sign with EdDSA, Ed key asked to sign with ES256) tries to issue
+/// claims full of secrets and fails at signing.
+fn foreign_issuer_failing_at_signing() {
+    let secret = json!({"iss": "https://other-tenant.example", "exp": gen::EXP, "secret_a": "tenant-A-secret-1", "secret_b": {"deep": ["tenant-A-secret-2", "tenant-A-secret-3"]}});
+    for (key_alg, asked) in [(Alg::ES256, "EdDSA"), (Alg::EdDSA, "ES256")] {
+        let mut other = drive::new_issuer(keys::issuer_enc(key_alg, 1), Some(asked));
+        let _ = drive::issue(&mut other, &secret, &Strat::All, None, true, Fmt::Compact);
+        let _ = drive::issue(&mut other, &secret, &Strat::All, Hk::Es.jwk(0), false, Fmt::Json);
+    }
+}
+
 pub fn run_issuer_seq(alpha: &[IssOp], seq: &[usize], alg: Alg, l: &mut Local) {
     let fresh = issuer_fresh_classes_cached(alpha, alg);
     l.evals += 1;
     l.traces += 1;
     l.transitions += seq.len() as u64;
     l.states += 1;
+    // on the same thread, just before: ANOTHER issuer instance whose issuance fails at the very last step (the key
+    // does not fit the algorithm, so everything up to signing has run); nothing of it may show in this history
+    foreign_issuer_failing_at_signing();
     let mut issuer = drive::new_issuer(keys::issuer_enc(alg, 0), Some(alg.name()));
     let mut earlier: Vec<Cred> = vec![];
     let names: Vec<&str> = seq.iter().map(|i| alpha[*i].name).collect();
